@@ -280,7 +280,8 @@ func c11Tamper(r *kernel.Run, s C11Spec, w *World, key *kernel.Key, ra *kernel.R
 		}
 		r.Eval(1)
 		r.Fault(kind)
-		v := verifyWire(b, sess)
+		v := verifyWireTwice(b, sess)
+		checkReverify(r, "C11", id, v)
 		if v.Panic != "" {
 			r.Probe("receiver-panic(judged by C08)")
 		}
